@@ -1074,3 +1074,26 @@ ASSUMPTIONS = [
     "recorded example in reference-dsl-output-statements.md), whereas a function-call emittable is one map",
     "custom sort comparators are only used when they define a strict total order on the elements (otherwise the result depends on the algorithm)",
 ]
+
+
+def replay(w):
+    """./check C14 --replay <witness.json>"""
+    d = w.get("detail", {})
+    sig = w.get("sig", {})
+    if sig.get("monitor") == "docs":
+        print("doc-replay witness: run, with cwd = a copy of /repo/docs/src and mlr on PATH:")
+        print(d["argv"][2])
+        print("--- recorded output:\n" + d.get("expected", ""))
+        print("--- output observed by the check:\n" + d.get("got", ""))
+        return 0
+    files = d.get("files") or {}
+    for argv in [d.get("argv")] + ([d["verb_argv"]] if d.get("verb_argv") else []):
+        r = R.mlr(argv, files=files)
+        print("argv:", argv)
+        print("rc:", r.rc, "signal:", r.signal, "verdict:", r.verdict)
+        print("stdout:\n" + r.out[:4000])
+        print("stderr:\n" + r.err[:2000])
+    if "program" in d:
+        print("program:\n" + d["program"])
+    print("expected:", json.dumps(d.get("expected"))[:4000])
+    return 0
